@@ -167,10 +167,9 @@ def judge (x : String) (cfg : NsCfg) (t v : String) : String :=
         | .ok w => if w.length == val.length then "T" else "DIFF"
         | .error .XPDY0050 => "F"
         | .error e => showRes (.error e)
-      let pr := match val, ty with
-        | [.func sa sr], .func a r => if funcItemTestArg tables sa sr a r then "T" else "F"
-        | _, _ => match convertArg tables xsd11 ty val with
-          | .ok _ => "T" | .error .XPDY0050 => "F" | .error e => showRes (.error e)
+      let pr := match convertParam tables xsd11 ty val with
+          | .ok w => if w.length == val.length then "T" else "A"     -- A: accepted after atomization of arrays
+          | .error .XPDY0050 => "F" | .error e => showRes (.error e)
       s!"match={showRes m} inst={showRes i} treat={tr} spec={sp} dom={b01 (domT ty val)} fp={b01 ty.parserGap} fk={b01 ty.hasTypeArg} param={pr} fpp={b01 (ty.gapAt true)}"
   | _, _ => "bad-judgement"
 
@@ -179,13 +178,24 @@ def answer (line : String) : String :=
   match line.splitOn "|" with
   | ["R", a, b] =>
     match parseAll pTy a, parseAll pTy b with
-    | some t1, some t2 => s!"restr={b01 (isRestriction tables t1 t2)} flat={b01 (t1.flat && t2.flat)}"
+    | some t1, some t2 => s!"restr={b01 (isRestriction tables t1 t2)} flat={b01 (t1.flat && t2.flat)} osr={b01 (!(t1.oldSplitOK && t2.oldSplitOK))}"
     | _, _ => "bad-type"
   | ["J", x, t, v] => judge x NsCfg.none t v
   | ["J", x, c, t, v] =>
     match (toks c).mapM (·.toNat?) with
     | some [d, p, q] => judge x ⟨d, p, q⟩ t v
     | _ => "bad-cfg"
+  | ["O", x, o, t, v] =>
+    -- `v instance of (T)o` / `v treat as (T)o` for a typed function test T with an occurrence indicator of its own
+    match parseAll pOcc o, parseAll pTy t, parseAll pValue v with
+    | some occ, some (.func a r), some val =>
+      let xsd11 := x == "1"
+      let tr := match treatAsOwnOcc tables xsd11 occ a r val with
+        | .ok w => if w.length == val.length then "T" else "DIFF"
+        | .error .XPDY0050 => "F"
+        | .error e => showRes (.error e)
+      s!"inst={showRes (instanceOfOwnOcc tables xsd11 occ a r val)} treat={tr}"
+    | _, _, _ => "bad-own-occurrence"
   | ["E", x, o, t] =>
     match parseAll pTy t with
     | some ty =>
